@@ -882,17 +882,17 @@ Theorem handshake_buffer_bounded :
 Proof.
   intros dec_plain dec_eip8 body_ok plain_size s c n Hps. unfold read_handshake_msg, two16 in *.
   destruct (takeN plain_size s) as [[buf s1]|] eqn:Et.
-  2:{ intros E; injection E as <- <-. repeat split; try lia. intros [|[|]]; discriminate. }
-  apply takeN_spec in Et as [-> Hlen].
+  2:{ intros E; injection E as <- <-. split; [lia|split; [lia|intros [|[|]]; discriminate]]. }
+  destruct (takeN_spec _ _ _ _ Et) as [Es Hlen]. subst s.
   destruct (dec_plain buf).
-  { intros E; injection E as <- <-. repeat split; try lia. intros [|[|]]; discriminate. }
+  { intros E; injection E as <- <-. split; [lia|split; [lia|intros [|[|]]; discriminate]]. }
   rewrite (N.mod_small plain_size 65536) by lia.
   assert (Hsz : N_of_be (firstn 2 buf) < 65536).
   { pose proof (N_of_be_lt (firstn 2 buf)) as Hlt.
-    assert (256 ^ lenN (firstn 2 buf) <= 256 ^ 2) by (apply N.pow_le_mono_r; unfold lenN; rewrite firstn_length; lia).
+    assert (256 ^ lenN (firstn 2 buf) <= 256 ^ 2) by (apply N.pow_le_mono_r; [lia|unfold lenN; rewrite firstn_length; lia]).
     change (256 ^ 2) with 65536 in *. lia. }
   destruct (N.ltb_spec (N_of_be (firstn 2 buf)) plain_size) as [|Hge].
-  { intros E; injection E as <- <-. repeat split; try lia. intros [|[|]]; discriminate. }
+  { intros E; injection E as <- <-. split; [lia|split; [lia|intros [|[|]]; discriminate]]. }
   assert (Hextra : (N_of_be (firstn 2 buf) + 65536 - plain_size + 2) mod 65536 = N_of_be (firstn 2 buf) - plain_size + 2).
   { replace (N_of_be (firstn 2 buf) + 65536 - plain_size + 2) with (N_of_be (firstn 2 buf) - plain_size + 2 + 1 * 65536) by lia.
     rewrite N.mod_add by lia. apply N.mod_small. lia. }
@@ -900,13 +900,14 @@ Proof.
   assert (Hpre : firstn 2 (buf ++ s1) = firstn 2 buf).
   { rewrite firstn_app. replace (2 - length buf)%nat with 0%nat by (unfold lenN in Hlen; lia).
     cbn [firstn]. apply app_nil_r. }
-  destruct (takeN (N_of_be (firstn 2 buf) - plain_size + 2) s1) as [[more s2]|] eqn:Et2.
-  2:{ intros E; injection E as <- <-. repeat split; try lia. intros [|[|]]; discriminate. }
-  apply takeN_spec in Et2 as [-> Hlen2].
-  assert (Hall : forall c0, (c0, plain_size + (N_of_be (firstn 2 buf) - plain_size + 2)) = (c, n) ->
+  set (sz := N_of_be (firstn 2 buf)) in *.
+  destruct (takeN (sz - plain_size + 2) s1) as [[more s2]|] eqn:Et2.
+  2:{ intros E; injection E as <- <-. split; [lia|split; [lia|intros [|[|]]; discriminate]]. }
+  destruct (takeN_spec _ _ _ _ Et2) as [Es1 Hlen2]. subst s1.
+  assert (Hall : forall c0, (c0, plain_size + (sz - plain_size + 2)) = (c, n) ->
             n <= 65537 /\ plain_size <= n /\
             (c = HOk \/ c = HBadBody \/ c = HDecryptErr ->
              n <= lenN (buf ++ more ++ s2) /\ n = N_of_be (firstn 2 (buf ++ more ++ s2)) + 2)).
-  { intros c0 E; injection E as _ <-. rewrite Hpre, !lenN_app. repeat split; lia. }
+  { intros c0 E; injection E as _ <-. rewrite Hpre. fold sz. rewrite !lenN_app. repeat split; lia. }
   destruct (dec_eip8 _ _); [destruct (body_ok _)|]; apply Hall.
 Qed.
